@@ -2,7 +2,7 @@
     log2_bounds encloses; remove() strips the full power.
     ONLY statements pinned here; proofs live in Dashu.Int.Grl*. *)
 From Dashu Require Import Base.Prelude Int.GrlSpec Int.GrlModel Int.GrlSpecProof Int.GrlRootProof
-  Int.GrlLogProof Int.GrlRemoveProof Int.GrlSqrtProof.
+  Int.GrlLogProof Int.GrlRemoveProof Int.GrlSqrtProof Int.GrlGcdProof Int.GrlLog2Tab Int.GrlLog2TabProof.
 From Coq Require Import Znumtheory.
 Open Scope Z_scope.
 
@@ -104,10 +104,29 @@ Theorem C12_newton_root_correct : forall x n, 0 < x -> 2 <= n -> forall fuel r,
 Proof. exact newton_root_correct. Qed.
 Print Assumptions C12_newton_root_correct.
 
+Theorem C12_newton_root_from_correct : forall x n, 0 < x -> 2 <= n -> forall fuel g0 r, 0 < g0 ->
+  newton_root_from fuel x n g0 = Ok r -> 0 < r /\ r ^ n <= x < (r + 1) ^ n.
+Proof. exact newton_root_from_correct. Qed.
+Print Assumptions C12_newton_root_from_correct.
+
+(** fuel 2^ceil(bits/n) + 1 (about twice the root) is enough; the climbing loop never runs (repair F08) *)
 Theorem C12_newton_root_terminates : forall x n, 0 < x -> 2 <= n -> forall fuel,
-  x + 2 <= Z.of_nat fuel -> exists r, newton_root fuel x n = Ok r.
+  newton_g0 x n < Z.of_nat fuel -> exists r, newton_root fuel x n = Ok r.
 Proof. exact newton_root_terminates. Qed.
 Print Assumptions C12_newton_root_terminates.
+
+Theorem C12_newton_root_no_overshoot : forall x n, 0 < x -> 2 <= n -> forall k,
+  newton_up (S k) x n (newton_g0 x n) (newton_next x n (newton_g0 x n)) =
+    Ok (newton_g0 x n, newton_next x n (newton_g0 x n)) /\
+  newton_next x n (newton_g0 x n) < newton_g0 x n.
+Proof. exact newton_root_no_overshoot. Qed.
+Print Assumptions C12_newton_root_no_overshoot.
+
+(** repaired defect F08 (performance) stays refuted: the pre-repair first guess needs > 300 steps for 7^33 *)
+Theorem C12_newton_root_prefix_slow_refuted :
+  newton_root_prefix 300 (7 ^ 33) 33 = OutOfFuel /\ newton_root 10 (7 ^ 33) 33 = Ok 7.
+Proof. exact newton_root_prefix_slow_refuted. Qed.
+Print Assumptions C12_newton_root_prefix_slow_refuted.
 
 Theorem C12_nth_root_asis_correct : forall fuel x n r, 0 <= x -> 0 < n ->
   nth_root_asis fuel x n = Ok r -> root_cert n x r = true.
@@ -209,3 +228,60 @@ Theorem C12_remove_asis_terminates : forall fuel x f, 0 < x -> 2 <= f -> x < Z.o
   remove_asis fuel x f <> OutOfFuel.
 Proof. exact remove_asis_terminates. Qed.
 Print Assumptions C12_remove_asis_terminates.
+
+(** * primitive gcd / gcd_ext of base/src/ring/gcd.rs (every type width: [bits] only selects a branch) *)
+Theorem C12_binary_gcd_correct : forall fuel a b g, 0 < a -> 0 < b -> Z.odd a = true -> Z.odd b = true ->
+  binary_gcd fuel a b = Ok g -> g = Z.gcd a b.
+Proof. exact binary_gcd_correct. Qed.
+Print Assumptions C12_binary_gcd_correct.
+
+Theorem C12_prim_gcd_asis_correct : forall fuel bits a b g, 0 <= a -> 0 <= b ->
+  prim_gcd_asis fuel bits a b = Ok g -> gcd_spec a b = Ok g.
+Proof. exact prim_gcd_asis_correct. Qed.
+Print Assumptions C12_prim_gcd_asis_correct.
+
+Theorem C12_prim_gcd_asis_panics : forall fuel bits a b r,
+  prim_gcd_asis fuel bits a b = Panic r -> gcd_spec a b = Panic r.
+Proof. exact prim_gcd_asis_panics. Qed.
+Print Assumptions C12_prim_gcd_asis_panics.
+
+Theorem C12_prim_gcd_asis_terminates : forall fuel bits a b, 0 <= a -> 0 <= b -> a + b <= Z.of_nat fuel ->
+  prim_gcd_asis fuel bits a b <> OutOfFuel.
+Proof. exact prim_gcd_asis_terminates. Qed.
+Print Assumptions C12_prim_gcd_asis_terminates.
+
+Theorem C12_euclid_ext_correct : forall fuel a b last_r r last_s s last_t t g cs ct,
+  0 < r -> 0 <= last_r ->
+  last_r = a * last_s + b * last_t -> r = a * s + b * t -> Z.gcd last_r r = Z.gcd a b ->
+  euclid_ext fuel last_r r last_s s last_t t = Ok (g, cs, ct) ->
+  g = Z.gcd a b /\ cs * a + ct * b = g.
+Proof. exact euclid_ext_correct. Qed.
+Print Assumptions C12_euclid_ext_correct.
+
+Theorem C12_euclid_ext_terminates : forall fuel last_r r last_s s last_t t, 0 < r -> r < Z.of_nat fuel ->
+  exists res, euclid_ext fuel last_r r last_s s last_t t = Ok res.
+Proof. exact euclid_ext_terminates. Qed.
+Print Assumptions C12_euclid_ext_terminates.
+
+Theorem C12_prim_gcd_ext_asis_correct : forall fuel a b g s t, 0 <= a -> 0 <= b ->
+  prim_gcd_ext_asis fuel a b = Ok (g, s, t) -> gcd_ext_cert a b g s t = true.
+Proof. exact prim_gcd_ext_asis_correct. Qed.
+Print Assumptions C12_prim_gcd_ext_asis_correct.
+
+Theorem C12_prim_gcd_ext_asis_panics : forall fuel a b r,
+  prim_gcd_ext_asis fuel a b = Panic r -> gcd_spec a b = Panic r.
+Proof. exact prim_gcd_ext_asis_panics. Qed.
+Print Assumptions C12_prim_gcd_ext_asis_panics.
+
+(** * the no_std log2 table estimator: finite domain, EVERY u8 / u16 value 0..65535 (by computation) *)
+Theorem C12_nostd_log2_u16_encloses : forall n, 0 <= n <= 65535 ->
+  match nostd_log2_u16 n with
+  | None => n = 0
+  | Some ((lm, lk), (um, uk)) => log2_lb_holds lm lk n 1 /\ log2_ub_holds um uk n 1
+  end.
+Proof. exact nostd_log2_u16_encloses. Qed.
+Print Assumptions C12_nostd_log2_u16_encloses.
+
+Theorem C12_nostd_gap_small : forall n, 256 <= n <= 65535 -> pow2b n = false -> 0 <= nostd_gap n <= 4.
+Proof. exact nostd_gap_small. Qed.
+Print Assumptions C12_nostd_gap_small.
